@@ -1412,10 +1412,12 @@ def convert(a, rep):
 class Rep:
     """The scene in one representation."""
 
-    def __init__(self, rep, img, err, stars, gal, galgeom):
+    def __init__(self, rep, img, err, stars, gal, galgeom, scale=1.0):
         self.rep = rep
         self.stars = stars
         self.galgeom = galgeom
+        self.scale = scale            # a power of two: the scaled values stay exactly representable
+        img, err, gal = img * scale, err * scale, gal * scale
         self.raw, self.rawerr, self.rawgal = img, err, gal
         self.unit = UNIT if rep == 'quantity' else None
         if rep == 'nddata':
@@ -1432,6 +1434,7 @@ class Rep:
 
     def q(self, x):
         """a data-like scalar/array argument (threshold, background level) in the unit of the data"""
+        x = x * self.scale
         return x * self.unit if self.unit is not None else x
 
 
@@ -1620,12 +1623,13 @@ SC_COLS = ['xcentroid', 'ycentroid', 'xcentroid_win', 'ycentroid_win', 'xcentroi
 def ep_source_catalog(S):
     from photutils.segmentation import detect_sources, SourceCatalog, make_2dgaussian_kernel
     from astropy.convolution import convolve
-    segm = detect_sources(S.raw, 60.0, 5)
+    segm = detect_sources(S.raw, 60.0 * S.scale, 5)
     kern = make_2dgaussian_kernel(2.0, 5)
-    conv = np.rint(convolve(S.raw, kern))      # integer-valued so that every representation holds it
+    conv = np.rint(convolve(S.raw / S.scale, kern)) * S.scale   # integer-valued (times the scale): every
+    # representation holds it
     convd = convert(conv, S.rep)
     yy, xx = np.mgrid[:S.raw.shape[0], :S.raw.shape[1]]
-    bkg = convert(15.0 + (xx // 3) + 2 * (yy // 5), S.rep)     # integer-valued, not constant
+    bkg = convert((15.0 + (xx // 3) + 2 * (yy // 5)) * S.scale, S.rep)     # integer-valued, not constant
     out = {}
     cat = SourceCatalog(S.data, segm, convolved_data=convd, error=S.error, background=bkg, localbkg_width=4)
     for c in SC_COLS:
@@ -1833,7 +1837,7 @@ def strip(v):
     return np.asarray(v), unit
 
 
-def compare(ref, got, tol_kind):
+def compare(ref, got, tol_kind, floor=1.0):
     """returns None if equal else message.  tol_kind: 'exact' | 'f32' | 'intround'"""
     if isinstance(got, Raised):
         return 'raises ' + got.msg
@@ -1854,7 +1858,7 @@ def compare(ref, got, tol_kind):
     a, b = a[~na], b[~nb]
     if a.size == 0:
         return None
-    scale = max(1.0, float(np.max(np.abs(a))))
+    scale = max(floor, float(np.max(np.abs(a)))) or 1.0
     if tol_kind == 'exact':
         ok = np.array_equal(a, b)
         d = float(np.max(np.abs(a - b)))
@@ -1994,8 +1998,8 @@ def scene_from_json(j):
                 stars=[tuple(s) for s in j['stars']], gal=np.array(j['gal'], float), galgeom=tuple(j['galgeom']))
 
 
-def mk_rep(rep, sc):
-    return Rep(rep, sc['img'], sc['err'], sc['stars'], sc['gal'], sc['galgeom'])
+def mk_rep(rep, sc, scale=1.0):
+    return Rep(rep, sc['img'], sc['err'], sc['stars'], sc['gal'], sc['galgeom'], scale)
 
 
 def reps_for(name, sc, reps):
@@ -2137,6 +2141,195 @@ def check_annotations(ctx, sc, reps):
                       {'rep': rep}, found_input=False)
 
 
+
+# ---------------------------------------------------------------- float32 axis: the scene scaled by 2**k
+SCALED_ENTRIES = ['aperture_photometry', 'ApertureStats', 'SourceCatalog', 'profiles', 'calc_total_error',
+                  'centroids', 'morphology', '_filter_data', 'finders']
+# these hand float32 data to astropy.stats.SigmaClip, whose float32 variance (numpy/bottleneck) underflows to 0
+# below ~2**-75 and overflows above ~2**63 (observed: SigmaClip(3)(x.astype('f4') * 2**-100) clips nothing / all):
+# library numerics outside photutils, so the scale axis is restricted to 2**-30 .. 2**30 for them
+SCALED_ENTRIES_SIGMACLIP = ['background_estimators', 'LocalBackground', 'segmentation', 'Background2D']
+
+
+def product_scaled(ctx, sc, name, k, found, ref_unscaled=None):
+    """float32 vs float64 on the scene multiplied by 2**k (data, error, thresholds, backgrounds): the
+    float32 arrays hold exactly the same (normal) numbers, so the results must agree to float32 precision.
+    Dimension-ful outputs are compared relative to their own magnitude (no absolute floor)."""
+    scale = 2.0 ** k
+    st, ref = run_entry(name, mk_rep('f8', sc, scale))
+    if st != 'ok' or ref is None:
+        ctx.stat('scaled', 'reference_fails:' + name)
+        return
+    if ref_unscaled is None:
+        st0, ref_unscaled = run_entry(name, mk_rep('f8', sc))
+        if st0 != 'ok':
+            ref_unscaled = {}
+    st, got = run_entry(name, mk_rep('f4', sc, scale))
+    ctx.count_case(['scaled', name, k, sc['stars']])
+    ctx.stat('scaled_exponents', str(k))
+    probs = []
+    if st != 'ok':
+        probs.append(('raises', '*', got))
+    else:
+        f = ENTRY_POINTS[name]
+        for key, r in ref.items():
+            if isinstance(r, Raised) or key in getattr(f, 'ill_conditioned_in_float32', ()):
+                continue
+            g = got.get(key)
+            if g is None:
+                probs.append(('missing', key, 'output missing'))
+                continue
+            if isinstance(g, Raised):
+                probs.append(('raises', key, g.msg))
+                continue
+            r0 = ref_unscaled.get(key)
+            dimless = r0 is not None and not isinstance(r0, Raised) and compare(r0, r, 'f32') is None
+            m = compare(r, g, 'f32', floor=1.0 if dimless else 0.0)
+            ctx.support('scaled_outputs_compared', 1)
+            if m:
+                probs.append(('differs', key, m))
+    ctx.stat('scaled', 'ok' if not probs else 'problem')
+    for kind in sorted({p[0] for p in probs}):
+        sig = f'{name}:float32-scaled:{kind}'
+        these = [p for p in probs if p[0] == kind]
+        found.setdefault(name, set()).add(sig)
+        ctx.violation(sig, f'{name}: float32 arrays holding the scene times 2**{k} (normal float32 numbers) do not '
+                      f'give the float64 result ({"; ".join(f"{p[1]}: {p[2]}" for p in these[:3])})',
+                      {'kind': 'scaled', 'entry': name, 'exp': k, 'scene': scene_json(sc),
+                       'problems': [list(p) for p in these[:12]], 'cmd': 'bin/check C15 --replay <this file>'})
+
+
+# ---------------------------------------------------------------- container axis: NDData units
+def _nd_calls(sc):
+    """entry points with an NDData path: name -> f(data, error) returning named outputs"""
+    from astropy.table import QTable
+    from photutils.aperture import ApertureStats, CircularAperture, aperture_photometry
+    from photutils.background import Background2D
+    from photutils.psf import CircularGaussianPRF, PSFPhotometry
+    ap = CircularAperture([(s[0], s[1]) for s in sc['stars']], r=4.0)
+    init = QTable()
+    init['x'] = [s[0] for s in sc['stars']]
+    init['y'] = [s[1] for s in sc['stars']]
+
+    def f_ap(d, e):
+        return _tbl(aperture_photometry(d, ap, error=e), ['aperture_sum', 'aperture_sum_err'])
+
+    def f_stats(d, e):
+        st = ApertureStats(d, ap, error=e)
+        return {c: getattr(st, c) for c in ('sum', 'sum_err', 'mean', 'std', 'xcentroid')}
+
+    def f_psf(d, e):
+        model = CircularGaussianPRF(flux=1, fwhm=4.0)
+        res = PSFPhotometry(model, (7, 7), aperture_radius=4.0)(d, error=e, init_params=init.copy())
+        return _tbl(res, ['x_fit', 'flux_fit', 'flux_err'])
+
+    def f_bkg(d, e):
+        b = Background2D(d, (8, 8), filter_size=3)
+        return {'background': b.background, 'background_rms': b.background_rms}
+    return {'aperture_photometry': f_ap, 'ApertureStats': f_stats, 'PSFPhotometry': f_psf, 'Background2D': f_bkg}
+
+
+ND_VARIANTS = [('Jy', 'absent'), ('Jy', 'none'), ('Jy', 'Jy'), ('Jy', 'mJy'), ('Jy', 's'), ('none', 'Jy'),
+               ('none', 'none')]
+
+
+def _nd_variant(sc, dunit, uunit):
+    """(NDData, equivalent data argument, equivalent error argument, error converted to the data unit)"""
+    units = {'Jy': u.Jy, 'mJy': u.mJy, 's': u.s, 'none': None}
+    img, err = sc['img'].copy(), sc['err'].copy()
+    du = units[dunit]
+    if uunit == 'absent':
+        unc = None
+    else:
+        unc = StdDevUncertainty(err * (1000.0 if uunit == 'mJy' else 1.0), unit=units[uunit])
+    nd = NDData(img, unit=du, uncertainty=unc)                  # astropy itself may reject or normalise this
+    d = img * du if du is not None else img
+    e = econv = None
+    if nd.uncertainty is not None:
+        uu = nd.uncertainty.unit                               # as astropy resolved it
+        e = nd.uncertainty.array * uu if uu is not None else nd.uncertainty.array.copy()
+        econv = e
+        if uu is not None and du is not None and uu != du:
+            try:
+                econv = e.to(du)
+            except Exception:  # noqa: BLE001
+                econv = None
+    return nd, d, e, econv
+
+
+def _call(f, d, e):
+    try:
+        with warnings.catch_warnings(), np.errstate(all='ignore'):
+            warnings.simplefilter('ignore')
+            return 'ok', f(d, e)
+    except Exception as ex:  # noqa: BLE001
+        return 'raise', f'{type(ex).__name__}: {str(ex)[:100]}'
+
+
+def _same_quantities(a, b):
+    for k in a:
+        if k not in b:
+            return f'{k}: missing'
+        x, y = a[k], b[k]
+        ux, uy = getattr(x, 'unit', None), getattr(y, 'unit', None)
+        if (ux is None) != (uy is None):
+            return f'{k}: unit {uy} vs {ux}'
+        if ux is not None:
+            try:
+                y = y.to(ux)
+            except Exception:  # noqa: BLE001
+                return f'{k}: unit {uy} not convertible to {ux}'
+        m = compare(x, y, 'ulp', floor=0.0)
+        if m:
+            return f'{k}: {m}'
+    return None
+
+
+def nddata_unit_case(sc, name, dunit, uunit):
+    """-> (verdict, message); verdict in ok / not-constructible / VIOLATION"""
+    f = _nd_calls(sc)[name]
+    try:
+        nd, d, e, econv = _nd_variant(sc, dunit, uunit)
+    except Exception as ex:  # noqa: BLE001
+        return 'not-constructible', type(ex).__name__
+    st_nd, r_nd = _call(f, nd, None)
+    st_a, r_a = _call(f, d, e)
+    if st_a == 'ok':
+        if st_nd != 'ok':
+            return 'VIOLATION', f'the NDData call raises ({r_nd}) although the call with the same Quantities succeeds'
+        m = _same_quantities(r_a, r_nd)
+        return ('ok', '') if m is None else ('VIOLATION', 'NDData result differs from the call with the same '
+                                                           'Quantities: ' + m)
+    # the array call rejects these Quantities: the container must be rejected too, or be evaluated
+    # correctly (uncertainty converted to the unit of the data)
+    if st_nd != 'ok':
+        return 'ok', 'both rejected'
+    if econv is not None and econv is not e:
+        st_c, r_c = _call(f, d, econv)
+        if st_c == 'ok':
+            m = _same_quantities(r_c, r_nd)
+            return ('ok', 'converted') if m is None else (
+                'VIOLATION', 'the call with the same Quantities is rejected (' + r_a + ') but the NDData is accepted '
+                'and its result is not the one for the converted uncertainty: ' + m)
+    return 'VIOLATION', f'the call with the same Quantities is rejected ({r_a}) but the NDData is accepted'
+
+
+def run_nddata_units(ctx, sc):
+    for name in _nd_calls(sc):
+        for dunit, uunit in ND_VARIANTS:
+            if name == 'Background2D' and uunit != 'absent':
+                continue
+            verdict, msg = nddata_unit_case(sc, name, dunit, uunit)
+            ctx.count_case(['ndunits', name, dunit, uunit, sc['stars']])
+            ctx.support('nddata_unit_variants', 1)
+            ctx.stat('nddata_units', f'{verdict}{":" + msg if msg in ("both rejected", "converted") else ""}')
+            if verdict == 'VIOLATION':
+                ctx.violation(f'{name}:nddata-units:data={dunit},uncertainty={uunit}',
+                              f'{name}: NDData(data unit {dunit}, uncertainty unit {uunit}): {msg}',
+                              {'kind': 'ndunits', 'entry': name, 'data_unit': dunit, 'uncertainty_unit': uunit,
+                               'scene': scene_json(sc), 'cmd': 'bin/check C15 --replay <this file>'})
+
+
 # ---------------------------------------------------------------- obligations
 def extract_obligations(ctx, cases):
     """IR programs of the anchored mechanisms from the current source -> CObligation cases"""
@@ -2188,6 +2381,10 @@ def run(ctx):
         'dtype_dispatch_transparent_partial: assumes the bottleneck and numpy kernels agree extensionally',
         'float32 / integer inputs are compared with the float64 run to float32 precision (2e-4 relative), '
         'layout/byte-order/container/unit representations to 1e-9 relative (bit-identical outputs are counted)',
+        'float32 scale axis: entry points that pass float32 data to astropy.stats.SigmaClip (background estimator '
+        'classes, LocalBackground, detect_threshold, Background2D) are only exercised for 2**-30..2**30: beyond, '
+        'astropy/numpy compute the float32 variance as 0 or inf and the clipped statistics differ from float64 '
+        '(observed, library numerics, not reported as a photutils violation)',
         'IterativePSFPhotometry fit results of second-pass (residual-noise) detections are not compared for '
         'float32 input (ill-conditioned fits amplify float32 rounding); the number of detections still is',
     ]
@@ -2256,6 +2453,16 @@ def run(ctx):
             product_one(ctx, sc, name, reps, found)
         run_mixed(ctx, sc) if k < 2 else None
     check_annotations(ctx, scenes[0], [r for r in reps if r != 'nddata'])
+    # ---- float32 axis: the scene times 2**k; container axis: NDData unit combinations
+    exps = [-100, 100] if quick else [-100, -64, -30, 30, 64, 100]
+    for k, sc in enumerate(scenes[:1 if quick else 3]):
+        for name in SCALED_ENTRIES:
+            for e in exps:
+                product_scaled(ctx, sc, name, e, found)
+        for name in SCALED_ENTRIES_SIGMACLIP:
+            for e in ([-30, 30] if quick else [-30, -12, 12, 30]):
+                product_scaled(ctx, sc, name, e, found)
+        run_nddata_units(ctx, sc)
     # ---- rejected obligations: a concrete failing input, or a no-failing-input-found report
     for tname, details in sorted(rejected.items()):
         entries = TARGET_ENTRIES.get(tname, [])
@@ -2299,6 +2506,28 @@ def replay(obj):
         except Exception as e:  # noqa: BLE001
             print(r['name'], 'raised', type(e).__name__, str(e)[:100])
             ok = True
+    elif kind == 'scaled':
+        sc = scene_from_json(r['scene'])
+
+        class _C:
+            def __init__(self):
+                self.n = 0
+
+            def count_case(self, *a, **k): pass
+            def stat(self, *a, **k): pass
+            def support(self, *a, **k): pass
+
+            def violation(self, sig, what, rp, found_input=True):
+                self.n += 1
+                print(sig, '::', what[:400])
+        c = _C()
+        product_scaled(c, sc, r['entry'], r['exp'], {})
+        ok = c.n == 0
+    elif kind == 'ndunits':
+        sc = scene_from_json(r['scene'])
+        verdict, msg = nddata_unit_case(sc, r['entry'], r['data_unit'], r['uncertainty_unit'])
+        print(r['entry'], r['data_unit'], r['uncertainty_unit'], '->', verdict, msg)
+        ok = verdict != 'VIOLATION'
     elif kind == 'product':
         sc = scene_from_json(r['scene'])
         st, ref = run_entry(r['entry'], mk_rep('f8', sc))
